@@ -107,7 +107,10 @@ func prepareGocritic() (*gocritic, error) {
 
 func newGocritic() (*gocritic, error) {
 	critic := &gocritic{
-		infoList: filterCheckersList(registeredCheckers),
+		// Not the registeredCheckers snapshot: it is taken during package
+		// initialization and misses the checkers registered afterwards by
+		// checkers.InitEmbeddedRules (they have no params, hence no flags).
+		infoList: filterCheckersList(linter.GetCheckersInfo()),
 	}
 
 	ver, err := linter.ParseGoVersion(flagGoVersion)
